@@ -19,6 +19,9 @@ CHECKS = {
    text="The spec's log is the stdlib-shaped interleaving of pulls, end detections, callable invocations (with arguments) and yields; it is validated event for event against the stdlib twin and compared for equality with what instrumented sources/callables record around asyncstdlib, for every consumer prefix."),
  "C06": dict(engine="toolmachine", design="5/C06", technique="TLA+ ToolMachine spec with a fault branch at every use (NoUseAfterFault invariant), TLC exhaustive; replay with injected exception objects",
    text="At every pull and callable invocation of every case the spec branches into 'this use raises'; each such leaf is replayed with an Exception and a TypeError instance: items delivered before, identity of the exception reaching the consumer, and no use after the failure are checked."),
+ "C09": dict(engine="tee", design="5/C09", technique="TLA+ Tee spec (cooperative tasks), TLC exhaustive over all interleavings + edge-cover replay into the real tee + TLC trace validation of recorded runs against TeeObs",
+   text="spec/Tee.tla models tee_peer action by action; TLC explores every interleaving of 2..4 children with lock/suspending source/early close/cancel and checks the C09 sentences as invariants (plus a negative config outside the premise that must fail); every transition of the state graph is replayed into the real asyncstdlib.tee with hand-driven tasks (state projection compared after each step, then drained), and the recorded observable events of drifted replays, a sample of the others and random schedules beyond the bounds are validated by TLC against spec/TeeObs.tla (order, completeness, fetch-once, no overlap under lock, source closed exactly when the last child is done, weak-reference census).",
+   note="Trusted: TLC, the harness (driver, TeeSys adapter, projection), CPython weak-reference/gc behaviour for the census. Exhaustive within the tier's constants; cancellation uses a cancellation-safe class-based source; named deviation UnstartedCloseLeaks models the code as it is (open known finding)."),
 }
 
 def main():
